@@ -11,7 +11,7 @@ def walk(o):
         if "words_covered" in o:
             secs = o.get("seconds", {})
             # only lemmas decided with a wide time margin (<= 1/5 of the per-lemma budget) go into the baseline
-            cov.update("C08 " + w for w in o["words_covered"] if secs.get(w, 0) <= (24 if tier == "quick" else 48))
+            cov.update("C08 " + w for w in o["words_covered"] if secs.get(w, 0) <= (24 if tier == "quick" else 20))
         for v in o.values():
             walk(v)
     elif isinstance(o, list):
